@@ -212,6 +212,22 @@ def digest(pstr):
 # ====================================================================== design generator
 PRELUDE = '''
 from pymtl3 import *
+import inspect as _insp
+def eff_record( d ):
+  # what construct() REALLY received (positional, keyword, default or set_param), in signature order
+  return [ ( k, d[k] ) for k in list( _insp.signature( type( d['s'] ).construct ).parameters )[1:] ]
+# same-named bitstruct classes with different fields: mk_bitstruct with equal names, classes made by a factory, nested
+def mk_msg( n ):
+  return mk_bitstruct( "Msg", { 'tag': Bits4, 'data': mk_bits( n ) } )
+def mk_pkt( n ):
+  @bitstruct
+  class Pkt:
+    hdr: Bits4
+    pay: mk_bits( n )
+  return Pkt
+def mk_wrap( n ):
+  return mk_bitstruct( "Wrap", { 'm': mk_msg( n ), 'c': Bits4 } )
+M8, M16, P8, P16, W8, W16 = mk_msg( 8 ), mk_msg( 16 ), mk_pkt( 8 ), mk_pkt( 16 ), mk_wrap( 8 ), mk_wrap( 16 )
 @bitstruct
 class Pt:
   a: Bits8
@@ -226,6 +242,7 @@ class VR( Interface ):
 def fac_add():
   class Leaf( Component ):
     def construct( s, nbits ):
+      s._c13_args = eff_record( locals() )
       s.in_ = InPort( nbits ); s.out = OutPort( nbits )
       @update
       def up():
@@ -234,6 +251,7 @@ def fac_add():
 def fac_sub():
   class Leaf( Component ):
     def construct( s, nbits ):
+      s._c13_args = eff_record( locals() )
       s.in_ = InPort( nbits ); s.out = OutPort( nbits )
       @update
       def up():
@@ -242,6 +260,7 @@ def fac_sub():
 def fac_k( k ):
   class Leaf( Component ):
     def construct( s, nbits ):
+      s._c13_args = eff_record( locals() )
       s.in_ = InPort( nbits ); s.out = OutPort( nbits )
       @update
       def up():
@@ -250,6 +269,7 @@ def fac_k( k ):
 def fac_ff():
   class Leaf( Component ):
     def construct( s, nbits ):
+      s._c13_args = eff_record( locals() )
       s.in_ = InPort( nbits ); s.out = OutPort( nbits )
       @update_ff
       def up():
@@ -258,6 +278,7 @@ def fac_ff():
 def fac_port():
   class Leaf( Component ):
     def construct( s, nbits ):
+      s._c13_args = eff_record( locals() )
       s.in_ = InPort( nbits ); s.out = OutPort( nbits ); s.en = InPort()
       @update
       def up():
@@ -266,19 +287,57 @@ def fac_port():
 LeafShared = fac_add()
 class Par( Component ):
   def construct( s, T, n=1, tag='t', opt=None ):
+    s._c13_args = eff_record( locals() )
     s.in_ = InPort( T ); s.out = OutPort( T )
     s.ws = [ Wire( T ) for _ in range( n ) ]
-    s.ws[0] //= s.in_
-    for i in range( n-1 ): s.ws[i+1] //= s.ws[i]
-    s.out //= s.ws[n-1]
+    @update
+    def up_par():
+      s.ws[0] @= s.in_
+      for i in range( n-1 ):
+        s.ws[i+1] @= s.ws[i]
+      s.out @= s.ws[n-1]
+class Multi( Component ):
+  def construct( s, Ts ):
+    s._c13_args = eff_record( locals() )
+    s.in0 = InPort( Ts[0] ); s.in1 = InPort( Ts[1] ); s.out0 = OutPort( Ts[0] ); s.out1 = OutPort( Ts[1] )
+    @update
+    def up_multi():
+      s.out0 @= s.in0
+      s.out1 @= s.in1
+class Inc2( Component ):
+  def construct( s, nbits=8, amount=1 ):
+    s._c13_args = eff_record( locals() )
+    s.in_ = InPort( nbits ); s.out = OutPort( nbits )
+    @update
+    def up_inc2():
+      s.out @= s.in_ + amount
+class Need( Component ):
+  def construct( s, amount ):
+    s._c13_args = eff_record( locals() )
+    s.in_ = InPort( 8 ); s.out = OutPort( 8 )
+    @update
+    def up_need():
+      s.out @= s.in_ + amount
+class Box2( Component ):
+  def construct( s, k=0 ):
+    s._c13_args = eff_record( locals() )
+    s.in_ = InPort( 8 ); s.out = OutPort( 8 )
+    s.y = Inc2(); s.z = [ Inc2() for _ in range(2) ]
+    s.y.in_ //= s.in_
+    for z in s.z: z.in_ //= s.in_
+    @update
+    def up_box2():
+      s.out @= s.y.out ^ s.z[0].out ^ s.z[1].out
 class Wide( Component ):
   def construct( s, a0=0, a1=1, a2=2, a3=3, a4=4, a5=5, a6=6, a7=7, a8=8, a9=9 ):
+    s._c13_args = eff_record( locals() )
     s.in_ = InPort( 8 ); s.out = OutPort( 8 )
     @update
     def up():
       s.out @= s.in_ + a0 + a9
 class Sel( Component ):
   def construct( s, op, tag='t' ):
+    s._c13_args = eff_record( locals() )
     s.in_ = InPort( 8 ); s.out = OutPort( 8 )
     if op == 'add':
       @update
@@ -290,6 +349,7 @@ class Sel( Component ):
         s.out @= s.in_ - 1
 class Off( Component ):
   def construct( s, nbits, off=-1 ):
+    s._c13_args = eff_record( locals() )
     s.in_ = InPort( nbits ); s.out = OutPort( nbits )
     if off < 0:
       @update
@@ -302,12 +362,14 @@ class Off( Component ):
 def some_function(): pass
 class IfcLeaf( Component ):
   def construct( s ):
+    s._c13_args = eff_record( locals() )
     s.ifc = VR( Bits8 ); s.ifc__msg = InPort( 8 )
     @update
     def up():
       s.ifc.rdy @= s.ifc.val & s.ifc__msg[0] & s.ifc.msg[1]
 class Cb( Component ):
   def construct( s, fn ):
+    s._c13_args = eff_record( locals() )
     s.in_ = InPort( 8 ); s.out = OutPort( 8 )
     s.out //= s.in_
 '''
@@ -320,7 +382,9 @@ class Leaf( Component ):
     def up():
       s.out @= ~s.in_
 '''
-T_POOL = ['Bits8', 'Bits4', 'mk_bits(13)', 'Pt', 'Outer', 'Bits1']
+T_POOL = ['Bits8', 'Bits4', 'mk_bits(13)', 'Pt', 'Outer', 'Bits1', 'M8', 'M16', 'mk_msg(8)', 'mk_msg(16)', 'mk_msg(12)', 'P8', 'P16', 'mk_pkt(8)', 'W8', 'W16', 'mk_wrap(16)']
+LT_CLEAN = ['Bits8', 'Bits4', 'Pt', 'Outer', 'mk_bits(13)', 'Bits1']
+LT_DIRTY = ['M8', 'M16', 'mk_msg(8)', 'mk_msg(12)', 'P8', 'P16', 'W8', 'W16']
 TAG_CLEAN = ["'t'", "'u'", "'hello world'", "'a.b'", "'x[0]'", "'<q>'", "'abcdefghijklmnopqrstuvwxyzabcdefghijklmnopqrstuvwxyz0123456789'", "(1, 2)", "[1, 2]", "1.5", "True"]
 OPT_CLEAN = ['None', '0', '7', "'o'", 'Bits8', 'Pt']
 
@@ -358,6 +422,7 @@ class HGen:
     s.rng, s.name, s.dirty = rng, name, dirty
     s.features = set()
     s.classes = []
+    s.kidmap = {}
 
   def leaf_expr(s):
     r = s.rng
@@ -378,24 +443,32 @@ class HGen:
       elif form == 1: e = f'Par( {T}, {n} )'
       elif form == 2: e = f'Par( {T}, n={n}, tag={r.choice(TAG_CLEAN)} )'; s.features.add('special-char-param')
       else: e = f'Par( {T}, {n}, {r.choice(TAG_CLEAN)}, {r.choice(OPT_CLEAN)} )'; s.features.add('special-char-param')
-      if T in ('Pt', 'Outer'): s.features.add('struct-param')
+      if T not in ('Bits8', 'Bits4', 'Bits1', 'mk_bits(13)'): s.features.add('struct-param')
+      if T[0] in 'MPW' or T.startswith('mk_msg') or T.startswith('mk_pkt') or T.startswith('mk_wrap'): s.features.add('same-named-struct-classes')
       return e, 'par'
     if x < 0.68:
       s.features.add('long-param-list')
       kw = ', '.join(f'a{i}={r.randrange(0, 100)}' for i in sorted(r.sample(range(10), r.randrange(0, 4))))
       return f'Wide( {kw} )', 'wide'
-    if x < 0.78:
+    if x < 0.74:
       return f'Off( 8, {r.choice([0, 1, 2, 255])} )', 'off'
-    if x < 0.85:
+    if x < 0.79:
+      return r.choice(['Inc2()', 'Inc2( 8 )', 'Inc2( amount=1 )', 'Inc2( 8, 2 )', 'Inc2( amount=2 )']), 'inc2'
+    if x < 0.83:
+      pool = LT_CLEAN + (LT_DIRTY if s.dirty else [])
+      if s.dirty: s.features.add('list-of-struct-types')
+      br = r.choice(['[ {}, {} ]', '( {}, {} )'])
+      return 'Multi( ' + br.format(r.choice(pool), r.choice(pool)) + ' )', 'multi'
+    if x < 0.88:
       return f"Sel( {r.choice(['add', 'sub'])!r}, {r.choice(['t', 'u', 'v w'])!r} )", 'sel'
     if earlier:
       b = r.choice(earlier); s.features.add('nested')
-      return f'{b}( {r.choice([0, 1, 2])} )', 'box'
+      return f'{b}' + r.choice(['()', '( 1 )', '( 2 )', '( k=1 )', '()']), 'box'
     return s.leaf_expr()
 
   def container(s, idx, earlier, top=False):
     r = s.rng
-    L = ['s.in_ = InPort( 8 ); s.out = OutPort( 8 )']
+    L = ['s._c13_args = eff_record( locals() )', 's.in_ = InPort( 8 ); s.out = OutPort( 8 )']
     nchild = r.randrange(2, 6)
     kids = []
     for c in range(nchild):
@@ -412,38 +485,30 @@ class HGen:
       # a list of components of ONE class whose elements are built with DIFFERENT arguments (same interface), also nested lists
       s.features.add('array-varying-params')
       k, b, cn = r.randrange(2, 4), r.randrange(0, 3), f'va{c}'
-      form = r.randrange(6 if earlier else 5)
-      if form == 0: e = f'[ Off( 8, i+{b} ) for i in range({k}) ]'
+      form = r.randrange(7 if earlier else 6)
+      if form == 5: e = f'[ Inc2( 8 ) for i in range({k}) ]'
+      elif form == 0: e = f'[ Off( 8, i+{b} ) for i in range({k}) ]'
       elif form == 1: e = f'[ Wide( a0=i, a9={b} ) for i in range({k}) ]'
       elif form == 2: e = f"[ Sel( [ 'add', 'sub' ][ i%2 ], 't' ) for i in range({k}) ]"
       elif form == 3: e = f'[ Par( Bits8, i+1 ) for i in range({k}) ]'
       elif form == 4: e = f'[ [ Off( 8, i+2*j+{b} ) for i in range(2) ] for j in range({k}) ]'; s.features.add('nested-list')
       else: e = f'[ {r.choice(earlier)}( i ) for i in range({k}) ]'; s.features.add('nested')
       L.append(f's.{cn} = {e}')
+      kids.append((cn, ['off', 'wide', 'sel', 'par', 'off2d', 'inc2', 'boxarr'][form], k, e))
       for ref in ([f's.{cn}[{i}]' for i in range(k)] if form != 4 else [f's.{cn}[{j}][{i}]' for j in range(k) for i in range(2)]):
         L.append(f'{ref}.in_ //= s.in_'); outs.append(f'{ref}.out')
-    for cn, kind, k, e in kids:
-      eight = kind in ('leaf', 'wide', 'off', 'sel', 'box') and '( 4 )' not in e
+    for cn, kind, k, e in [x for x in kids if not x[0].startswith('va')]:
+      eight = kind in ('leaf', 'wide', 'off', 'sel', 'box', 'inc2') and '( 4 )' not in e
       refs = [f's.{cn}'] if not k else [f's.{cn}[{i}]' for i in range(k)]
-      if kind == 'par':
-        # a parametrised pass-through needs a driven input: a wire of its type written from s.in_
-        T = re.match(r'Par\( ((?:mk_bits\(13\))|\w+)', e).group(1)
-        L.append(f's.wi_{cn} = Wire( {T} )')
-        drv += {'Bits8': [f's.wi_{cn} @= s.in_'], 'Bits4': [f's.wi_{cn} @= s.in_[0:4]'], 'Bits1': [f's.wi_{cn} @= s.in_[0]'],
-                'mk_bits(13)': [f's.wi_{cn} @= zext( s.in_, 13 )'], 'Pt': [f's.wi_{cn}.a @= s.in_', f's.wi_{cn}.b @= s.in_[0:4]'],
-                'Outer': [f's.wi_{cn}.p.a @= s.in_', f's.wi_{cn}.p.b @= s.in_[0:4]', f's.wi_{cn}.c @= s.in_[4:8]']}[T]
-        for ref in refs: L.append(f'{ref}.in_ //= s.wi_{cn}')
-        continue
       for ref in refs:
         if eight:
           L.append(f'{ref}.in_ //= s.in_'); outs.append(f'{ref}.out')
-    if drv: L += ['@update', 'def up_drv():'] + ['  ' + d for d in drv]
     L.append('s.w0 = Wire( 8 ); s.w1 = Wire( 8 )')
     r.shuffle(outs)
     acc = ' ^ '.join(outs[:5]) if outs else 's.in_'
     L += ['@update', 'def up_w0():', f'  s.w0 @= {acc}', '@update', 'def up_out():', '  t = s.w0 + k', '  s.w1 @= t', '  s.out @= s.w1 + 1']
     if s.dirty:
-      plain = [cn for cn, kind, k, e in kids if not k]
+      plain = [cn for cn, kind, k, e in kids if not k and kind in ('leaf', 'wide', 'off', 'sel', 'box', 'inc2')]
       for trig in r.sample(['wire-subport', 'port-subport', 'ifc-port', 'blk-sig', 'reserved-inst', 'sv2009-kw', 'arr-inst', 'tmpvar', 'neg-param', 'odd-param', 'colliding-params'], r.choice([0, 1, 1, 2])):
         s.features.add(trig)
         if trig == 'wire-subport' and plain:
@@ -471,24 +536,55 @@ class HGen:
           L += ["s.cp0 = Sel( 'add', 'x__tag_y' )", "s.cp1 = Sel( 'add__tag_x', 'y' )"]
     body = '\n'.join('    ' + l for l in L)
     cname = s.name if top else f'{s.name}_Box{idx}'
+    s.kidmap[cname] = kids
     sig = 's' if top else 's, k=0'
-    pre = '    k = 0\n' if top else ''
-    return cname, f'class {cname}( Component ):\n  def construct( {sig} ):\n{pre}{body}\n'
+    if top: body = body.replace('\n', '\n    k = 0\n', 1)
+    return cname, f'class {cname}( Component ):\n  def construct( {sig} ):\n{body}\n'
+
+  def sp_targets(s, cname, prefix):
+    """(path, argument, value) candidates for set_param below the component of class cname reachable as `prefix`"""
+    r, out = s.rng, []
+    for cn, kind, k, e in s.kidmap.get(cname, []):
+      if kind == 'inc2' and not re.search(r'Inc2\( 8, ', e): arg, val = 'amount', r.choice([3, 4, 5])
+      elif kind == 'wide': arg, val = 'a3', r.randrange(10, 90)
+      elif kind == 'par' and (re.fullmatch(r'Par\( [^,]+ \)', e) or 'n=' in e): arg, val = 'n', r.choice([2, 3])
+      elif kind == 'box' and ('()' in e or 'k=' in e): arg, val = 'k', r.choice([1, 2])
+      else: continue
+      idx = '' if not k else f'[{r.randrange(k)}]'
+      out.append((f'{prefix}.{cn}{idx}', arg, val, kind, e))
+    return out
 
   def source(s, auxmod):
-    nbox = s.rng.randrange(1, 4)
+    r = s.rng
+    nbox = r.randrange(1, 4)
     txt, earlier = [], []
     for i in range(nbox):
       cn, src = s.container(i, earlier); txt.append(src); earlier.append(cn)
     cn, src = s.container(nbox, earlier, top=True); txt.append(src)
-    return PRELUDE + f'import {auxmod} as AUXMOD\n' + '\n'.join(txt)
+    # construct() arguments supplied through the parameter tree: on direct children of the top (single instances, list elements)
+    sp = []
+    cands = s.sp_targets(cn, 'top')
+    for path, arg, val, kind, e in r.sample(cands, min(len(cands), r.choice([0, 1, 2, 3]))):
+      sp.append(f'  top.set_param( "{path}.construct", {arg}={val} )'); s.features.add('set-param')
+    if s.dirty and r.random() < 0.5:
+      # ... and BELOW a child (hazard: the child's own name does not change, its body does)
+      boxes = [(f'top.{c}' + ('' if not k else f'[{r.randrange(k)}]'), re.search(r'(\w+)\(', e).group(1)) for c, kind, k, e in s.kidmap[cn] if kind == 'box']
+      if boxes:
+        bp, bcls = r.choice(boxes)
+        deep = s.sp_targets(bcls, bp)
+        if deep:
+          path, arg, val, kind, e = r.choice(deep)
+          sp.append(f'  top.set_param( "{path}.construct", {arg}={val} )'); s.features.add('deep-set-param')
+    build = f'def build():\n  top = {cn}()\n' + '\n'.join(sp) + ('\n' if sp else '') + '  return top\n'
+    return f'from pymtl3 import *\nfrom {auxmod.replace("aux", "lib")} import *\nimport {auxmod} as AUXMOD\n' + '\n'.join(txt) + build
 
 def directed(auxmod):
   """(name, feature, expected rejection?, construct body lines)"""
   D = []
-  def add(name, feat, lines, reject=False):
+  def add(name, feat, lines, reject=False, sp=()):
     body = '\n'.join('    ' + l for l in ['s.in_ = InPort( 8 ); s.out = OutPort( 8 )'] + lines)
-    D.append((name, feat, reject, PRELUDE + f'import {auxmod} as AUXMOD\nclass {name}( Component ):\n  def construct( s ):\n{body}\n'))
+    build = f'def build():\n  top = {name}()\n' + ''.join(f'  top.set_param( "top.{p_}.construct", {kv} )\n' for p_, kv in sp) + '  return top\n'
+    D.append((name, feat, reject, f'from pymtl3 import *\nfrom {auxmod.replace("aux", "lib")} import *\nimport {auxmod} as AUXMOD\n' + f'class {name}( Component ):\n  def construct( s ):\n{body}\n{build}'))
   conn = lambda *cs: [f's.{c}.in_ //= s.in_' for c in cs]
   add('D_same_name_factories', 'same-name-diff-body', ['s.a = fac_add()( 8 ); s.b = fac_sub()( 8 )'] + conn('a', 'b') + ['@update', 'def up():', '  s.out @= s.a.out ^ s.b.out'])
   add('D_same_name_modules', 'same-name-diff-body', ['s.a = LeafShared( 8 ); s.b = AUXMOD.Leaf( 8 )'] + conn('a', 'b'))
@@ -499,6 +595,17 @@ def directed(auxmod):
       [f's.{c}[{i}].in_ //= s.in_' for c, n in (('a', 3), ('b', 2), ('c', 3)) for i in range(n)])
   add('D_array_nested_varying', 'array-varying-params', ['s.a = [ [ Off( 8, i+2*j ) for i in range(2) ] for j in range(2) ]; s.b = [ [ LeafShared( 8 ) for i in range(2) ] for j in range(2) ]'] +
       [f's.{c}[{j}][{i}].in_ //= s.in_' for c in 'ab' for j in range(2) for i in range(2)])
+  add('D_struct_class_params', 'same-named-struct-classes', ['s.a = Par( M8 ); s.b = Par( M16 ); s.c = Par( mk_msg( 8 ) ); s.d = Par( P8 ); s.e = Par( P16 ); s.f = Par( mk_pkt( 8 ) ); '
+      's.g = Par( W8 ); s.h = Par( W16 ); s.i = Par( Bits16 ); s.j = Par( Pt ); s.k = Par( M8, 2 ); s.l = Par( M16, opt=M8 ); s.m = Par( M16, opt=M16 ); s.n0 = Par( mk_msg( 4 ) ); s.n1 = Par( mk_msg( 5 ) ); s.n2 = [ Par( M16, 2 ) for i in range(2) ]'])
+  add('D_list_of_types_distinct_names', 'list-of-types', ['s.a = Multi( [ Bits8, Bits4 ] ); s.b = Multi( [ Bits4, Bits8 ] ); s.c = Multi( ( Bits8, Bits4 ) ); s.d = Multi( [ Pt, Outer ] ); s.e = Multi( [ Outer, Pt ] ); s.f = Multi( [ Bits8, Bits4 ] )'])
+  add('D_list_of_types_same_names', 'list-of-struct-types', ['s.a = Multi( [ M8, Bits4 ] ); s.b = Multi( [ M16, Bits4 ] ); s.c = Multi( [ P8, P16 ] ); s.d = Multi( [ P16, P8 ] )'])
+  add('D_set_param', 'set-param', ['s.a = Inc2(); s.b = Inc2(); s.c = Inc2( 8 ); s.d = Inc2( amount=1 ); s.e = Inc2( amount=2 ); s.r = [ Inc2( 8 ) for _ in range(3) ]; s.q = [ [ Inc2() for _ in range(2) ] for _ in range(2) ]',
+      's.w1 = Wide(); s.w2 = Wide( a3=7 ); s.p1 = Par( M8 ); s.p2 = Par( M8 )'] + conn('a', 'b', 'c', 'd', 'e'),
+      sp=[('b', 'amount=3'), ('c', 'amount=2'), ('e', 'amount=5'), ('r[1]', 'amount=2'), ('q[1][0]', 'amount=6'), ('w1', 'a3=7'), ('p2', 'n=2')])
+  add('D_set_param_no_default', 'set-param', ['s.n1 = Need(); s.n2 = Need(); s.n3 = Need( 4 ); s.n4 = [ Need() for _ in range(2) ]'] + conn('n1', 'n2', 'n3'),
+      sp=[('n1', 'amount=4'), ('n2', 'amount=5'), ('n4[0]', 'amount=4'), ('n4[1]', 'amount=6')])
+  add('D_set_param_below_child', 'deep-set-param', ['s.x1 = Box2(); s.x2 = Box2(); s.x3 = Box2(); s.x4 = Box2( 1 )'] + conn('x1', 'x2', 'x3', 'x4'),
+      sp=[('x2.y', 'amount=5'), ('x3.z[1]', 'amount=6'), ('x4.y', 'amount=5')])
   add('D_params_ints', 'int-params', ['s.a = LeafShared( 8 ); s.b = LeafShared( 4 ); s.c = LeafShared( 16 ); s.d = Off( 8, 1 ); s.e = Off( 8, 2 ); s.f = Off( 4, 1 )'])
   def drive(lines, specs):
     out = list(lines)
@@ -539,6 +646,41 @@ def translate_obj(top):
   os.remove(fn)
   return txt, top.get_metadata(VerilogTranslationPass.translated_top_module)
 
+def translate_sub(top2, path):
+  """translate ONE instance (given by its repr path 's.a.b[1]') of an elaborated, otherwise identical hierarchy as a translation
+  top: the instance keeps exactly the arguments / parameter-tree entries it has in the design.  -> (text, module name)"""
+  from pymtl3.passes.backends.verilog import VerilogTranslationPass as V
+  m = eval('T' + path[1:], {'T': top2})
+  m.set_metadata(V.enable, True)
+  try:
+    top2.apply(V())
+    fn = m.get_metadata(V.translated_filename)
+    txt = open(fn).read(); os.remove(fn)
+    return txt, m.get_metadata(V.translated_top_module)
+  finally:
+    m.set_metadata(V.enable, False)
+
+def vsig(v):
+  """identity-faithful signature of an argument value (classes by identity: same-named classes must not be confused)"""
+  if isinstance(v, type): return ('T', id(v))
+  if isinstance(v, (list, tuple)): return (type(v).__name__,) + tuple(vsig(x) for x in v)
+  return repr(v)
+
+def has_type_container(v):
+  return isinstance(v, (list, tuple, set, frozenset, dict)) and any(isinstance(x, type) or has_type_container(x) for x in (v.values() if isinstance(v, dict) else v))
+
+def eff_args(m):
+  """the arguments construct() really received (recorded inside construct by the generated classes); fallback: signature binding"""
+  a = getattr(m, '_c13_args', None)
+  return list(a) if a is not None else params_of(m)
+
+def subtree_sig(m, memo):
+  """(class, effective arguments, children...) — equal signatures = identically constructed sub-hierarchies"""
+  if id(m) not in memo:
+    kids = sorted(m.get_child_components(repr), key=repr)
+    memo[id(m)] = (id(type(m)), tuple((k, vsig(v)) for k, v in eff_args(m)), tuple((repr(c)[len(repr(m)):], subtree_sig(c, memo)) for c in kids))
+  return memo[id(m)]
+
 WORKER = r'''
 import sys, json, os, importlib.util, tempfile
 from pymtl3.passes.backends.verilog import VerilogTranslationPass
@@ -548,12 +690,12 @@ sys.path.insert(0, sys.argv[2])
 out = {}
 for k, (path, cls) in enumerate(jobs):
   try:
-    spec = importlib.util.spec_from_file_location('c13w_%d' % k, path)
-    mod = importlib.util.module_from_spec(spec); sys.modules['c13w_%d' % k] = mod
+    spec = importlib.util.spec_from_file_location('c13w_' + cls, path)
+    mod = importlib.util.module_from_spec(spec); sys.modules['c13w_' + cls] = mod
     spec.loader.exec_module(mod)
     res = []
     for rep in range(2):
-      top = getattr(mod, cls)()
+      top = mod.build() if hasattr(mod, 'build') else getattr(mod, cls)()
       top.elaborate()
       top.set_metadata(VerilogTranslationPass.enable, True)
       top.apply(VerilogTranslationPass())
@@ -618,6 +760,8 @@ EXPECTED_FROM = {
   'C13:dup-ident-instance~instance': {'arr-inst'},
   'C13:illegal-instance:reserved': {'reserved-inst'},
   'C13:illegal-signal:reserved-since-1800-2009': {'sv2009-kw'},
+  'C13:set-param-below-instance-different-body': {'deep-set-param'},
+  'C13:container-of-types-param-different-body': {'list-of-struct-types'},
   'C13:nondeterministic-param-str-address': {'addr-param'},
   'C13:nondeterministic-param-str-set-order': {'set-param'},
 }
@@ -634,6 +778,7 @@ def run(ctx):
   sys.path.insert(0, str(ctx.scratch))
   auxmod = f'c13aux_{os.getpid()}'
   (ctx.scratch / f'{auxmod}.py').write_text(AUX)
+  (ctx.scratch / f'{auxmod.replace("aux", "lib")}.py').write_text(PRELUDE)      # ONE library module shared by all designs of the run
 
   designs = []     # (name, feature set, expect_reject, source)
   for name, feat, rej, src in directed(auxmod): designs.append((name, {feat}, rej, src, 'directed'))
@@ -660,8 +805,9 @@ def run(ctx):
       ctx.note(f'design {name} could not be loaded: {e!r}'); continue
     # load_source writes its own file; the workers import `path` — the update-block comments carry the file path, so the
     # in-process text is compared after normalising that path only
+    build = getattr(mod, 'build', cls)
     try:
-      top = cls(); txt, topmod = translate_obj(top)
+      top = build(); txt, topmod = translate_obj(top)
     except Exception as e:
       nrej += 1
       ctx.count((name, 'rejected', type(e).__name__), True, cls='rejected:' + ('expected' if expect_rej else type(e).__name__))
@@ -671,7 +817,7 @@ def run(ctx):
     if expect_rej:
       ctx.note(f'design {name}: a reserved word was expected to be rejected but the design was translated')
     ntrans += 1
-    inproc[name] = (txt, mod.__file__, str(path))
+    inproc[name] = (txt, mod.__file__, str(path), mod.__name__)
     jobs.append((str(path), name))
     for f in feats: ctx.hist['feature:' + f] = ctx.hist.get('feature:' + f, 0) + 1
     # ---- (a) parse the real output into the module table
@@ -687,19 +833,23 @@ def run(ctx):
     insts, detail = [], []
     comps = walk(top)
     used_name = {id(top): topmod}
-    alone = {}
+    alone, sigmemo, top2 = {}, {}, None
+    below_misbound = set()
     for (m, parent, iid) in comps[1:]:
+      if id(parent) in below_misbound: below_misbound.add(id(m)); continue
       pm = modidx.get(used_name.get(id(parent)))
       cand = [a for a, b in pm['insts'] if b == iid] if pm else []
       if len(cand) != 1:
         used_name[id(m)] = cand[0] if cand else None
         if not cand: continue
       used_name[id(m)] = cand[0]
-      key = (id(type(m)), repr(m._dsl.args), repr(sorted(m._dsl.kwargs.items())))
+      key = subtree_sig(m, sigmemo)
       if key not in alone:
         try:
-          a = type(m)(*m._dsl.args, **m._dsl.kwargs)
-          atxt, amod = translate_obj(a)
+          # the SAME instance of an identically built second hierarchy (same arguments, same set_param calls), translated as a top
+          if top2 is None:
+            top2 = build(); top2.elaborate()
+          atxt, amod = translate_sub(top2, repr(m))
           at = parse_sv(atxt)
           am = next((x for x in at['mods'] if x['name'] == amod), None)
           alone[key] = (amod, am['body'] if am else None)
@@ -711,12 +861,20 @@ def run(ctx):
       if abody is None: continue
       # the module ACTUALLY instantiated for this instance in the parent's text must have the body the instance has alone
       insts.append((cand[0], intern(abody)))
-      detail.append((repr(m), cand[0], type(m), key, intern(abody), amod))
+      ea = eff_args(m)
+      detail.append((repr(m), cand[0], type(m), key, intern(abody), amod, key[1], any(has_type_container(v) for _, v in ea)))
+      if cand[0] in modidx and intern(modidx[cand[0]]['body']) != intern(abody):
+        # this instance is bound to a body that is not its own (reported through sharing_ok): the instantiations read from that body
+        # say nothing about ITS children, so they are not judged separately
+        below_misbound.add(id(m))
     # ---- every emitted module other than the top must be instantiated somewhere (an orphan means an instance was bound elsewhere)
     usedmods = {a for m in tbl['mods'] for a, _ in m['insts']} | {topmod}
     orphans = sorted(m['name'] for m in tbl['mods'] if m['name'] not in usedmods)
     if orphans:
-      ctx.violation('C13:module-never-instantiated', f'design {name}: module(s) {orphans} are emitted but no instance uses them', {'design_source': src, 'top': name, 'modules': orphans})
+      # with set_param below a child the orphan IS the child's correctly named module that the shared parent body never instantiates
+      ctx.violation('C13:set-param-below-instance-different-body' if 'deep-set-param' in feats else 'C13:module-never-instantiated',
+                    f'design {name}: module(s) {orphans} are emitted but no instance uses them' + (' (set_param below a child: the parent module is shared, so the re-parametrised grandchild module is never instantiated)' if 'deep-set-param' in feats else ''),
+                    {'design_source': src, 'top': name, 'modules': orphans})
     k = len(tab_defs)
     tab_defs.append(f'Definition t{k} : table := {table_term(tbl, intern)}.\nDefinition i{k} : list inst := {coq_list([f"({cstr(a)}, {b})" for a, b in insts])}.')
     for cj in range(6): acc_cases.append(f'({cj}%nat, (t{k}, i{k}))')
@@ -733,9 +891,9 @@ def run(ctx):
     # ---- (c) name model
     for (m, parent, iid) in comps:
       obs = used_name.get(id(m))
-      if obs is None: continue
+      if obs is None or (parent is not None and id(parent) in below_misbound): continue
       try:
-        ps = [(k_, render_value(v)) for k_, v in params_of(m)]
+        ps = [(k_, render_value(v)) for k_, v in eff_args(m)]
       except Exception as e:
         ctx.note(f'{name}: parameters of {m} not rendered: {e!r}'); continue
       if any('0x' in v and ' at ' in v for _, v in ps) or 'set(' in ''.join(v for _, v in ps): continue   # address / set-order dependent: see determinism
@@ -850,7 +1008,7 @@ Definition conj (c : nat * (table * list inst)) : bool :=
     if 4 in failed:
       bodies = {m['name']: intern(m['body']) for m in reversed(tbl['mods'])}
       for d in detail:
-        path, mn, cls_, key, b, amod = d
+        path, mn, cls_, key, b, amod, own, tcont = d
         if bodies.get(mn) != b and amod != mn:
           found = True
           ctx.violation('C13:instance-bound-to-other-module', f'design {name}: instance {path} is instantiated as module {mn!r} in its parent, but translated alone it is module {amod!r} '
@@ -858,10 +1016,18 @@ Definition conj (c : nat * (table * list inst)) : bool :=
                         dict(rep, instance=path, module=mn, own_module=amod))
         elif bodies.get(mn) != b:
           found = True
-          others = {id(x[2]) for x in detail if x[1] == mn}
-          key_ = 'C13:same-classname-different-body' if len(others) > 1 else 'C13:same-class-colliding-params-different-body'
+          grp = [x for x in detail if x[1] == mn]
+          others = {id(x[2]) for x in grp}
+          if len(others) > 1:
+            key_, why = 'C13:same-classname-different-body', 'distinct classes with the same __name__ and parameters'
+          elif len({x[6] for x in grp}) == 1:
+            key_, why = 'C13:set-param-below-instance-different-body', 'one class, identical own arguments, but construct() arguments of a sub-component were changed with set_param below this instance: the module name does not reflect it'
+          elif any(x[7] for x in grp):
+            key_, why = 'C13:container-of-types-param-different-body', 'one class; a list/tuple-of-types argument is rendered with str(), which prints same-named (struct) classes identically'
+          else:
+            key_, why = 'C13:same-class-colliding-params-different-body', 'one class, different arguments rendering to the same name'
           ctx.violation(vkey(key_, feats), f'design {name}: instance {path} is given module {mn!r}, but translated alone its body differs from the definition emitted '
-                        f'under that name ({"distinct classes with the same __name__ and parameters" if len(others) > 1 else "one class, different arguments rendering to the same name"}): the instance silently gets another component\'s hardware',
+                        f'under that name ({why}): the instance silently gets another component\'s hardware',
                         dict(rep, instance=path, module=mn))
     if not found:
       ctx.violation(f'C13:acceptor-reject:{"+".join(map(str, failed))}', f'design {name}: Coq acceptor rejects the module table (conjuncts {rep["failed_conjuncts"]}) but the harness diagnosis found no offender',
@@ -922,8 +1088,8 @@ Definition conj (c : nat * (table * list inst)) : bool :=
       r = res.get(sd, {}).get(name)
       if r is None: continue
       for rep, t in enumerate(r): texts.append((f'seed{sd}#{rep}', t))
-    base, _, lpath = inproc[name]
-    texts.append(('inproc-seed0', base.replace(_, lpath)))
+    base, _, lpath, mname = inproc[name]
+    texts.append(('inproc-seed0', base.replace(_, lpath).replace(mname + '.', 'c13w_' + name + '.')))
     ndet += len(texts)
     ctx.count((name, 'determinism'), True, cls='determinism-design')
     ref = texts[0]
@@ -979,7 +1145,9 @@ def _replay(ctx, r):
     print('replay file carries no design'); return 1
   sys.path.insert(0, str(ctx.scratch))
   m = re.search(r'^import (c13aux_\d+) as AUXMOD', src, re.M)
-  if m: (ctx.scratch / f'{m.group(1)}.py').write_text(AUX)
+  if m:
+    (ctx.scratch / f'{m.group(1)}.py').write_text(AUX)
+    (ctx.scratch / f'{m.group(1).replace("aux", "lib")}.py').write_text(PRELUDE)
   cls, mod = sc.load_source(ctx, src, topn)
   top = cls()
   txt, topmod = translate_obj(top)
